@@ -152,6 +152,23 @@ class C06(Prop):
                 return {"type": "toc", "alts": alts, "profile": prof}
             prof = [[[[alts[(i + j) % m]] for j in range(m)], 1] for i in range(m)]
             return {"type": "soc", "alts": alts, "profile": prof}
+        if rng.random() < 0.7:
+            # wide, padded: a small core profile with an even electorate (drawn contests) on top, 27-36 further
+            # alternatives ranked below the core by every voter
+            k = rng.choice([3, 4, 4, 5])
+            core = list(range(1, k + 1))
+            m = rng.choice([31, 36, 40])
+            pad = gen.perm(rng, list(range(k + 1, m + 1)))
+            prof, seen = [], set()
+            for _ in range(rng.randint(2, 4)):
+                o = tuple(gen.perm(rng, core))
+                if o in seen:
+                    continue
+                seen.add(o)
+                prof.append([[[a] for a in list(o) + pad], rng.choice([1, 1, 2, 3])])
+            if sum(x for _, x in prof) % 2:
+                prof[0][1] += 1
+            return {"type": "soc", "alts": list(range(1, m + 1)), "profile": prof}
         # wide: more than 30 alternatives, an even number of voters, every order paired with its reverse for part of
         # the alternatives (drawn contests), one extra pair breaking the symmetry
         m = rng.choice([31, 36, 40])
